@@ -31,6 +31,7 @@ CANARIES = {
         ("uuid-cut-from-the-right", "stix2/properties.py", "text", ['id_.index("--")', 'id_.rindex("--")'], "C02.id-rule"),
         ("tlp-colour-normalised", "stix2/markings/utils.py", "text", ['color = marking_obj["definition"]["tlp"]', 'color = marking_obj["definition"]["tlp"].strip()'], "C02.tlp"),
         ("boolean-socket-option", "stix2/v21/observables.py", "text", ["if isinstance(val, bool) or not isinstance(val, int):", "if not isinstance(val, int):"], "C02.constraints"),
+        ("hash-regex-unicode-casefold", "stix2/hashes.py", "text", ["re.compile(re_str, re.I | re.A)", "re.compile(re_str, re.I)"], "C02.hash-regex"),
     ],
     "C03": [
         ("revoked-default-flipped", "stix2/v21/sdo.py", "bool-flip", ["Indicator", "False -> True", "lambda: False"], "C03.table"),
